@@ -21,7 +21,8 @@ Inductive gty : Type :=
 | TyPrim (a : A) (p : byte)                 (* int nat string bytes bool unit mutez … (prim tag) *)
 | TyPair (a : A) (l r : gty)
 | TyOption (a : A) (t : gty)
-| TyOr (a : A) (l r : gty).
+| TyOr (a : A) (l r : gty)
+| TyList (a : A) (t : gty).
 
 Inductive gval : Type :=
 | GInt (a : A) (p : byte) (z : Z)           (* int / nat / mutez / timestamp: tag p *)
@@ -34,7 +35,10 @@ Inductive gval : Type :=
 | GSome (a : A) (v : gval)
 | GLeft (a : A) (v : gval) (rt : gty)
 | GRight (a : A) (lt : gty) (v : gval)
-| GPacked (a : A) (m : node).               (* the bytes value 0x05 ++ forge m produced by PACK *)
+| GPacked (a : A) (m : node)                (* the bytes value 0x05 ++ forge m produced by PACK *)
+(* lists as chains of cells; every cell repeats the annotation and the item type of the list's class *)
+| GNil (a : A) (t : gty)
+| GCons (a : A) (t : gty) (h tl : gval).
 End Poly.
 Arguments gty A : clear implicits.
 Arguments gval A : clear implicits.
@@ -53,6 +57,7 @@ Fixpoint tmap (t : gty A) : gty B :=
   | TyPair a l r => TyPair (f a) (tmap l) (tmap r)
   | TyOption a t => TyOption (f a) (tmap t)
   | TyOr a l r => TyOr (f a) (tmap l) (tmap r)
+  | TyList a t => TyList (f a) (tmap t)
   end.
 Fixpoint gmap (v : gval A) : gval B :=
   match v with
@@ -67,6 +72,8 @@ Fixpoint gmap (v : gval A) : gval B :=
   | GLeft a v rt => GLeft (f a) (gmap v) (tmap rt)
   | GRight a lt v => GRight (f a) (tmap lt) (gmap v)
   | GPacked a m => GPacked (f a) m
+  | GNil a t => GNil (f a) (tmap t)
+  | GCons a t h tl => GCons (f a) (tmap t) (gmap h) (gmap tl)
   end.
 End Map.
 
@@ -164,6 +171,21 @@ Fixpoint to_mich (m : mode) (v : gval A) : node :=
   | GLeft _ w _ => NPrim P_Left [to_mich m w] []
   | GRight _ _ w => NPrim P_Right [to_mich m w] []
   | GPacked _ _ => NByt []            (* not rendered by the model (bytes of a PACK result) *)
+  | GNil _ _ => NSeq []
+  | GCons _ _ h tl =>
+      NSeq (to_mich m h ::
+        (fix els (w : gval A) : list node :=
+           match w with
+           | GCons _ _ h' tl' => to_mich m h' :: els tl'
+           | _ => []
+           end) tl)
+  end.
+
+(* the rendered elements of a list value *)
+Fixpoint elems_of (m : mode) (v : gval A) : list node :=
+  match v with
+  | GCons _ _ h tl => to_mich m h :: elems_of m tl
+  | _ => []
   end.
 
 (* the rendered leaves of the right spine (what the inner fixpoint of [to_mich] computes) *)
@@ -213,6 +235,7 @@ Fixpoint ty_shape_eqb (t u : gty A) : bool :=
   | TyPair _ l r, TyPair _ l' r' => ty_shape_eqb l l' && ty_shape_eqb r r'
   | TyOption _ x, TyOption _ y => ty_shape_eqb x y
   | TyOr _ l r, TyOr _ l' r' => ty_shape_eqb l l' && ty_shape_eqb r r'
+  | TyList _ x, TyList _ y => ty_shape_eqb x y
   | _, _ => false
   end.
 
@@ -231,6 +254,18 @@ Fixpoint type_of (v : gval A) : gty A :=
   | GLeft a w rt => TyOr a (type_of w) rt
   | GRight a lt w => TyOr a lt (type_of w)
   | GPacked a _ => TyPrim a T_bytes0
+  | GNil a t => TyList a t
+  | GCons a t _ _ => TyList a t
+  end.
+
+(* get_anon_type(): the same type without the annotations of its root *)
+Definition anon (t : gty A) : gty A :=
+  match t with
+  | TyPrim _ p => TyPrim d p
+  | TyPair _ l r => TyPair d l r
+  | TyOption _ x => TyOption d x
+  | TyOr _ l r => TyOr d l r
+  | TyList _ x => TyList d x
   end.
 
 (* COMPARE: a.assert_type_equal(type(b)) first, then the comparison *)
@@ -294,6 +329,18 @@ Fixpoint read (t : gty A) (n : node) {struct t} : option (gval A) :=
           else None
       | _ => None
       end
+  | TyList a u =>
+      match n with
+      | NSeq items =>
+          (fix rd (l : list node) : option (gval A) :=
+             match l with
+             | [] => Some (GNil a u)
+             | x :: r => match read u x, rd r with
+                         | Some v, Some tl => Some (GCons a u v tl)
+                         | _, _ => None end
+             end) items
+      | _ => None
+      end
   end.
 
 (* ---- the instruction fragment ---------------------------------------------------------------------*)
@@ -304,12 +351,57 @@ Inductive cinstr : Type :=
 | IGet (n : nat) | IUpdate (n : nat) | IPairN (n : nat) | IUnpairN (n : nat)
 | ICar | ICdr | IPair | IUnpair | ICompare | IPack
 | IDup | ISwap | IDrop
-| ISome | INone (t : gty A) | ILeft (t : gty A) | IRight (t : gty A) | IUnit | IEq
+| ISome | INone (t : gty A) | ILeft (t : gty A) | IRight (t : gty A) | IUnit
+| ICmpOp (op : byte)                 (* EQ NEQ LT GT LE GE: int -> bool *)
+| IArith (op : byte)                 (* ADD SUB MUL on int / nat *)
+| INil (t : gty A) | ICons
 | ISeq (a b : cinstr) | INop
-| IIf (a b : cinstr) | IIfNone (a b : cinstr) | IIfLeft (a b : cinstr)
-| IDip (n : nat) (a : cinstr).
+| IIf (a b : cinstr) | IIfNone (a b : cinstr) | IIfLeft (a b : cinstr) | IIfCons (a b : cinstr)
+| IDip (n : nat) (a : cinstr)
+| IIter (a : cinstr) | IMap (a : cinstr) | ILoop (a : cinstr).
 
 Definition gstack := list (gval A).
+
+Definition O_EQ := x25. Definition O_NEQ := x3c. Definition O_LT := x37. Definition O_GT := x2a.
+Definition O_LE := x32. Definition O_GE := x28.
+Definition O_ADD := x12. Definition O_SUB := x4b. Definition O_MUL := x3a.
+
+Definition zero_test (op : byte) : option (Z -> bool) :=
+  if byte_eqb op O_EQ then Some (fun z => Z.eqb z 0)
+  else if byte_eqb op O_NEQ then Some (fun z => negb (Z.eqb z 0))
+  else if byte_eqb op O_LT then Some (fun z => Z.ltb z 0)
+  else if byte_eqb op O_GT then Some (fun z => Z.ltb 0 z)
+  else if byte_eqb op O_LE then Some (fun z => Z.leb z 0)
+  else if byte_eqb op O_GE then Some (fun z => Z.leb 0 z)
+  else None.
+
+(* ADD / SUB / MUL on int and nat operands: result prim and value (annotation-free by construction) *)
+Definition arith (op : byte) (p : byte) (x : Z) (q : byte) (y : Z) : option (byte * Z) :=
+  let intnat r := byte_eqb r T_int || byte_eqb r T_nat in
+  if intnat p && intnat q then
+    let both_nat := byte_eqb p T_nat && byte_eqb q T_nat in
+    if byte_eqb op O_ADD then Some (if both_nat then T_nat else T_int, (x + y)%Z)
+    else if byte_eqb op O_SUB then Some (T_int, (x - y)%Z)
+    else if byte_eqb op O_MUL then Some (if both_nat then T_nat else T_int, (x * y)%Z)
+    else None
+  else None.
+
+(* the class of a list value: annotation and item type *)
+Definition list_class (v : gval A) : option (A * gty A) :=
+  match v with GNil a t => Some (a, t) | GCons a t _ _ => Some (a, t) | _ => None end.
+
+(* ListType.from_items(results) of MAP: a fresh list class whose item type is the anonymous type of the first
+   result; every result must have that type (annotations ignored); [acc] is in reverse order *)
+Fixpoint build_list (t : gty A) (acc : list (gval A)) (tail : gval A) : option (gval A) :=
+  match acc with
+  | [] => Some tail
+  | v :: r => if ty_shape_eqb t (type_of v) then build_list t r (GCons d t v tail) else None
+  end.
+Definition from_items (acc : list (gval A)) : option (gval A) :=
+  match rev acc with
+  | [] => None
+  | v0 :: _ => let t := anon (type_of v0) in build_list t acc (GNil d t)
+  end.
 
 (* instructions without code arguments *)
 Definition step (i : cinstr) (s : gstack) : result gstack :=
@@ -342,41 +434,107 @@ Definition step (i : cinstr) (s : gstack) : result gstack :=
   | ILeft t, v :: s' => Ok (GLeft d v t :: s')
   | IRight t, v :: s' => Ok (GRight d t v :: s')
   | IUnit, _ => Ok (GUnit d :: s)
-  | IEq, GInt _ p z :: s' => if byte_eqb p T_int then Ok (GBool d (Z.eqb z 0) :: s') else Reject
+  | ICmpOp op, GInt _ p z :: s' =>
+      match zero_test op with
+      | Some tst => if byte_eqb p T_int then Ok (GBool d (tst z) :: s') else Reject
+      | None => Reject
+      end
+  | IArith op, GInt _ p x :: GInt _ q y :: s' =>
+      match arith op p x q y with Some (r, z) => Ok (GInt d r z :: s') | None => Reject end
+  | INil t, _ => Ok (GNil d t :: s)
+  | ICons, e :: l :: s' =>
+      match list_class l with
+      | Some (a, t) => if ty_shape_eqb t (type_of e) then Ok (GCons a t e l :: s') else Reject
+      | None => Reject
+      end
   | _, _ => Reject
   end.
 
-Fixpoint run (i : cinstr) (s : gstack) : result gstack :=
-  match i with
-  | ISeq a b => match run a s with Ok s' => run b s' | Reject => Reject end
-  | INop => Ok s
-  | IIf a b => match s with GBool _ c :: s' => if c then run a s' else run b s' | _ => Reject end
-  | IIfNone a b =>
-      match s with
-      | GNone _ _ :: s' => run a s'
-      | GSome _ v :: s' => run b (v :: s')
-      | _ => Reject
-      end
-  | IIfLeft a b =>
-      match s with
-      | GLeft _ v _ :: s' => run a (v :: s')
-      | GRight _ _ v :: s' => run b (v :: s')
-      | _ => Reject
-      end
-  | IDip n a =>
-      if length s <? n then Reject
-      else match run a (skipn n s) with Ok s' => Ok (firstn n s ++ s') | Reject => Reject end
-  | _ => step i s
+(* outcome of running code with a fuel bound on LOOP iterations *)
+Inductive outcome : Type := Done (s : gstack) | Fail | OutOfFuel.
+Definition of_result (r : result gstack) : outcome := match r with Ok s => Done s | Reject => Fail end.
+
+(* [run n]: n bounds the nesting/number of LOOP iterations only; everything else is structural in the code *)
+Fixpoint run (n : nat) : cinstr -> gstack -> outcome :=
+  match n with
+  | O => fun _ _ => OutOfFuel
+  | S n' =>
+      fix go (i : cinstr) (s : gstack) {struct i} : outcome :=
+        match i with
+        | ISeq a b => match go a s with Done s' => go b s' | o => o end
+        | INop => Done s
+        | IIf a b => match s with GBool _ c :: s' => if c then go a s' else go b s' | _ => Fail end
+        | IIfNone a b =>
+            match s with
+            | GNone _ _ :: s' => go a s'
+            | GSome _ v :: s' => go b (v :: s')
+            | _ => Fail
+            end
+        | IIfLeft a b =>
+            match s with
+            | GLeft _ v _ :: s' => go a (v :: s')
+            | GRight _ _ v :: s' => go b (v :: s')
+            | _ => Fail
+            end
+        | IIfCons a b =>
+            match s with
+            | GCons _ _ h tl :: s' => go a (h :: tl :: s')
+            | GNil _ _ :: s' => go b s'
+            | _ => Fail
+            end
+        | IDip k a =>
+            if length s <? k then Fail
+            else match go a (skipn k s) with Done s' => Done (firstn k s ++ s') | o => o end
+        | IIter a =>
+            match s with
+            | l :: s' =>
+                (fix iter (l : gval A) (s : gstack) {struct l} : outcome :=
+                   match l with
+                   | GNil _ _ => Done s
+                   | GCons _ _ h tl => match go a (h :: s) with Done s1 => iter tl s1 | o => o end
+                   | _ => Fail
+                   end) l s'
+            | [] => Fail
+            end
+        | IMap a =>
+            match s with
+            | l :: s' =>
+                (fix iter (l : gval A) (acc : list (gval A)) (s : gstack) {struct l} : outcome :=
+                   match l with
+                   | GNil _ _ =>
+                       match acc with
+                       | [] => Done (l :: s)                    (* empty list: the source is pushed back *)
+                       | _ => match from_items acc with Some r => Done (r :: s) | None => Fail end
+                       end
+                   | GCons _ _ h tl =>
+                       match go a (h :: s) with
+                       | Done (r :: s1) => iter tl (r :: acc) s1
+                       | Done [] => Fail
+                       | o => o
+                       end
+                   | _ => Fail
+                   end) l [] s'
+            | [] => Fail
+            end
+        | ILoop a =>
+            match s with
+            | GBool _ true :: s' => match go a s' with Done s1 => run n' (ILoop a) s1 | o => o end
+            | GBool _ false :: s' => Done s'
+            | _ => Fail
+            end
+        | _ => of_result (step i s)
+        end
   end.
 
-Fixpoint exec (p : list cinstr) (s : gstack) : result gstack :=
+Fixpoint exec (n : nat) (p : list cinstr) (s : gstack) : outcome :=
   match p with
-  | [] => Ok s
-  | i :: r => match run i s with Ok s' => exec r s' | Reject => Reject end
+  | [] => Done s
+  | i :: r => match run n i s with Done s' => exec n r s' | o => o end
   end.
 End Ops.
 
 Arguments cinstr A : clear implicits.
+Arguments outcome A : clear implicits.
 
 Fixpoint imap {A B} (f : A -> B) (i : cinstr A) : cinstr B :=
   match i with
@@ -387,13 +545,19 @@ Fixpoint imap {A B} (f : A -> B) (i : cinstr A) : cinstr B :=
   | ICar => ICar | ICdr => ICdr | IPair => IPair | IUnpair => IUnpair | ICompare => ICompare
   | IPack => IPack | IDup => IDup | ISwap => ISwap | IDrop => IDrop
   | ISome => ISome | INone t => INone (tmap f t) | ILeft t => ILeft (tmap f t) | IRight t => IRight (tmap f t)
-  | IUnit => IUnit | IEq => IEq
+  | IUnit => IUnit | ICmpOp op => ICmpOp op | IArith op => IArith op
+  | INil t => INil (tmap f t) | ICons => ICons
   | ISeq a b => ISeq (imap f a) (imap f b) | INop => INop
   | IIf a b => IIf (imap f a) (imap f b)
   | IIfNone a b => IIfNone (imap f a) (imap f b)
   | IIfLeft a b => IIfLeft (imap f a) (imap f b)
+  | IIfCons a b => IIfCons (imap f a) (imap f b)
   | IDip n a => IDip n (imap f a)
+  | IIter a => IIter (imap f a) | IMap a => IMap (imap f a) | ILoop a => ILoop (imap f a)
   end.
+
+Definition omap {A B} (g : gstack (A:=A) -> gstack (A:=B)) (o : outcome A) : outcome B :=
+  match o with Done s => Done (g s) | Fail => Fail | OutOfFuel => OutOfFuel end.
 
 (* ---- boolean equalities for the correspondence cases ---------------------------------------------*)
 Definition ann_eqb (a b : ann) : bool :=
@@ -405,6 +569,7 @@ Fixpoint ty_eqb (a b : aty) : bool :=
   | TyPair x l r, TyPair y l' r' => ann_eqb x y && ty_eqb l l' && ty_eqb r r'
   | TyOption x t, TyOption y t' => ann_eqb x y && ty_eqb t t'
   | TyOr x l r, TyOr y l' r' => ann_eqb x y && ty_eqb l l' && ty_eqb r r'
+  | TyList x t, TyList y t' => ann_eqb x y && ty_eqb t t'
   | _, _ => false
   end.
 
@@ -421,6 +586,8 @@ Fixpoint val_eqb (a b : aval) : bool :=
   | GLeft x v t, GLeft y w u => ann_eqb x y && val_eqb v w && ty_eqb t u
   | GRight x t v, GRight y u w => ann_eqb x y && ty_eqb t u && val_eqb v w
   | GPacked x m, GPacked y n => ann_eqb x y && node_eqb m n
+  | GNil x t, GNil y u => ann_eqb x y && ty_eqb t u
+  | GCons x t h tl, GCons y u h' tl' => ann_eqb x y && ty_eqb t u && val_eqb h h' && val_eqb tl tl'
   | _, _ => false
   end.
 
@@ -430,6 +597,15 @@ Definition rmap {X Y} (g : X -> Y) (r : result X) : result Y :=
 Fixpoint iseq {A} (l : list (cinstr A)) : cinstr A :=
   match l with [] => INop | i :: r => ISeq i (iseq r) end.
 
-Definition run_prog (p : list (cinstr ann)) : result (list aval) := exec no_ann p [].
-Definition out_eqb (a b : result (list aval)) : bool := result_eqb (list_eqb val_eqb) a b.
+(* the correspondence runs give every program 64 units of fuel (generated loops iterate at most a few times);
+   fuel exhaustion is a distinguished outcome *)
+Definition FUEL : nat := 64.
+Definition run_prog (p : list (cinstr ann)) : outcome ann := exec no_ann FUEL p [].
+Definition out_eqb (a b : outcome ann) : bool :=
+  match a, b with
+  | Done s, Done t => list_eqb val_eqb s t
+  | Fail, Fail => true
+  | OutOfFuel, OutOfFuel => true
+  | _, _ => false
+  end.
 Definition mk_ann (f t : option bytes) : ann := {| fld := f; tyn := t |}.
